@@ -1,10 +1,10 @@
--- driver for C13 (stub)
-def step (_line : String) : String := "bad-op"
+-- driver for C13: summary figures of the report writers (see GrcovModel/Drv/C13.lean)
+import GrcovModel.Drv.C13
 
 partial def loop (h : IO.FS.Stream) (out : IO.FS.Stream) : IO Unit := do
   let line ← h.getLine
   if line.isEmpty then return ()
-  out.putStrLn (step line)
+  out.putStrLn (Grcov.Drv.C13.step line)
   loop h out
 
 def main : IO Unit := do
